@@ -92,3 +92,16 @@ Theorem C03_xward_switch_rows_symmetric : forall sn basekv r x is z rx oq_,
   b_ra (switch_branch sn basekv z rx oq_) = 0 /\ b_xa (switch_branch sn basekv z rx oq_) = 0.
 Proof. exact xward_switch_rows_symmetric. Qed.
 Print Assumptions C03_xward_switch_rows_symmetric.
+
+(* T-model transformer end to end: a branch row carrying the pi parameters _wye_delta computed from a passive T circuit
+   (r*rr, r*(1-rr), pfe >= 0), stamped by makeYbus with any complex tap and evaluated by pfsoln, reports pl_mw >= 0 *)
+Theorem C03_t_model_row_loss_nonneg : forall br e vf vt sn r x g b rr xr,
+  b_stat br = true -> b_ra br == 0 -> b_xa br == 0 ->
+  ~ (b_r br) * (b_r br) + (b_x br) * (b_x br) == 0 -> ~ b_tap br == 0 -> re e * re e + im e * im e == 1 ->
+  (b_r br, b_x br, b_g br, b_b br, b_ga br, b_ba br) = wye_delta_core r x g b rr xr ->
+  let za := wd_za r x rr xr in let zb := wd_zb r x rr xr in let yc := mkC g b in
+  ~ za ==c C0 -> ~ zb ==c C0 -> ~ yc ==c C0 -> ~ Cadd (Cadd za zb) (Cmul (Cmul za zb) yc) ==c C0 ->
+  0 <= sn -> 0 <= re za -> 0 <= re zb -> 0 <= g ->
+  0 <= re (pl (fst (flows (stamps_core br e) vf vt sn)) (snd (flows (stamps_core br e) vf vt sn))).
+Proof. exact t_model_row_loss_nonneg. Qed.
+Print Assumptions C03_t_model_row_loss_nonneg.
